@@ -8,14 +8,53 @@ TRUSTED_ALWAYS = [
 ]
 
 ASSUMPTIONS = {
-    "P-refine": "P-refine (assumed at this layer, hypothesis of C05): elim_vars_by_refining returns R with context&R => self (or raises ValueError); vars(R) within vars(self)+vars(context)",
-    "P-relax": "P-relax (assumed at this layer, hypothesis of C05): elim_vars_by_relaxing returns R with context&self => R (or raises ValueError); vars(R) within vars(self)+vars(context)",
-    "P-simplify": "P-simplify (assumed at this layer, hypothesis of C05): simplify returns a sub-list equivalent to self wherever the context holds, ValueError only if infeasible in context",
-    "P-refines": "P-refines (assumed at this layer): refines answers True only for containment",
-    "P-refines(exact)": "P-refines exact (assumed at this layer; proved for polyhedra under the ideal LP contract in C03's H-domain obligations): list-level refines answers True iff containment",
-    "A-card": "cardinality lemma: len(set(L)) == len(L) iff L is duplicate-free (pure mathematics, used by the multiset abstraction)",
+    "P-refine": "P-refine (assumed at the algebra layer, hypothesis of C05; polyhedral proof: C04 obligations): elim_vars_by_refining returns R with context&R => self (or raises ValueError); vars(R) within vars(self)+vars(context)",
+    "P-relax": "P-relax (assumed at the algebra layer, hypothesis of C05; polyhedral proof: C04 obligations): elim_vars_by_relaxing returns R with context&self => R (or raises ValueError); vars(R) within vars(self)+vars(context)",
+    "P-simplify": "P-simplify (assumed at the algebra layer, hypothesis of C05; polyhedral proof: C07 obligations): simplify returns a sub-list equivalent to self wherever the context holds, ValueError only if infeasible in context",
+    "P-simplify (C07)": "P-simplify at call sites inside the elimination functions (proved by the C07 obligations)",
+    "P-refines": "P-refines (assumed at the algebra layer): refines answers True only for containment",
+    "P-refines(exact)": "P-refines exact (assumed at the algebra layer; proved for polyhedra under the ideal LP contract by the C03 obligations in domain H): list-level refines answers True iff containment",
+    "A-card": "cardinality lemma: len(set(L)) == len(L) iff L is duplicate-free (pure mathematics, used by the list abstraction)",
+    "A1": "A1: floats are treated as mathematical reals (no rounding, overflow, nan, inf, -0.0); what this hides is what the bounded monitor looks at",
     "A2": "A2: Var equality/hash is name equality (checked by the VCs on Var.__eq__/__hash__), dict iteration order irrelevant",
+    "A3": "A3: finite sums are bilinear: linear functionals are affine along segments (comb points instantiated explicitly)",
+    "A4": "A4: ideal contract of scipy.optimize.linprog(c, A_ub, b_ub, bounds=(None,None)): status in {0,2,3}; 2 iff infeasible; 3 iff feasible and unbounded; 0 => x feasible, fun = c.x minimal, slack = b - A x (assumed; the real HiGHS is exercised by the bounded monitors)",
+    "A5": "A5: numpy array operations used by the code (array, concatenate, delete, copy, zeros, indexing, scalar multiply, isclose, where) have their list/real meaning",
+    "A6": "A6: sympy.solve on a square linear system returns a dict iff the solution is unique, and then every point satisfying the equations satisfies var = solution",
+    "A9-repr": "A9: default float formatting (str/repr) is injective on reals (A1 excludes -0.0/nan)",
+    "contract of verify_polytope_containment (h_lp)": "call-site contract of verify_polytope_containment, proved in domain H for <=3x3 rows and any dimension",
+    "contract of is_polytope_empty (h_lp)": "call-site contract of is_polytope_empty, proved in domain H for <=3 rows and any dimension",
+    "contract of reduce_polytope (h_lp)": "call-site contract of reduce_polytope, proved in domain H for <=3 rows, <=2 context rows and any dimension",
+    "contracts of _tactic_1.._tactic_5": "call-site contracts of the five tactics inside the dispatcher: tactics 2 and 4 are proved (S domain); tactics 1, 3 and 5 (sympy-based context reduction) are ASSUMED here and covered only by the bounded monitor - tactic 5 is known to violate it (known finding)",
+    "contract of _transform_term": "call-site contract of the per-term dispatcher (proved by PolyhedralTermList._transform_term[*])",
+    "Term.vars is duplicate-free": "Term.vars returns a duplicate-free list (proved for PolyhedralTerm by PolyhedralTerm.accessors)",
+    "contract of list_union (lists.list_union)": "contract of list_union used to summarise the union-fold loop in TermList.vars (proved by lists.list_union)",
+    "Term.rename_variable contract": "Term.rename_variable is faithful substitution (proved for PolyhedralTerm by PolyhedralTerm.rename_variable, domain S)",
+    "Term.rename_variable contract (proved in S for PolyhedralTerm)": "Term.rename_variable is faithful substitution (proved for PolyhedralTerm by PolyhedralTerm.rename_variable, domain S)",
 }
+
+HOOK_COMMITS = []
+NOT_CLAIMED = {}
+
+_VC = "contract-based deductive verification: verification conditions generated from the real ast of /repo/src (pyvc symbolic interpreter, sidecar contracts), discharged by z3 (cvc5 second back end)"
+_PROOF_TEXT = (
+    "proof: every obligation is an unbounded verification condition generated from the real source and discharged by an SMT solver; "
+    "this is the right level because the property is about set/list algebra and uninterpreted predicates, which the technique decides for all inputs"
+)
+_MIXED_TEXT = (
+    "verification conditions generated from the real source and discharged by an SMT solver for the stated shapes (domain U: no bound; domain H: bounded number of rows, any dimension; "
+    "domain S: bounded shape, all real values), under the listed assumed contracts of scipy/sympy/numpy; what the VCs cannot reach (real solver round-off, string building, pyparsing, Qhull, histories) "
+    "is covered by a run-time contract monitor on the natively executing code, labelled bounded and not counted as proved"
+)
+_U_NOTE = (
+    "trusted: the pyvc VC generator (own code, guarded by canaries and a mutation corpus), z3/cvc5, the CPython semantics of the interpreted subset, "
+    "the primitive TermList contracts as hypotheses (they are the hypothesis of C05 by its wording; their polyhedral proofs are C04/C07/C03), "
+    "list order abstracted, message formatting not interpreted"
+)
+_MIXED_NOTE = (
+    "trusted: pyvc, z3/cvc5, the encoded CPython semantics, floats as reals (A1), the ideal linprog contract (A4), numpy list meaning (A5), sympy.solve (A6) where used; "
+    "bounded shapes as stated per contract in the evidence; the monitor part is random/bounded-exhaustive testing with exact oracles"
+)
 
 _U_EXPL = (
     "Verification conditions are generated from the ast of the real functions in /repo/src/pacti/iocontract/iocontract.py "
@@ -26,14 +65,20 @@ _U_EXPL = (
     "with no bound on the number of variables, terms or roles. "
 )
 
-HOOK_COMMITS = []
-NOT_CLAIMED = {}
 
-_PROOF_TEXT = ("proof: every obligation is an unbounded verification condition generated from the real source and discharged by an SMT solver; "
-               "this is the right level because the property is about set/list algebra and uninterpreted predicates, which the technique decides for all inputs")
-_U_NOTE = ("trusted: the pyvc VC generator (own code, guarded by canaries and a mutation corpus), z3/cvc5, the CPython semantics of the interpreted subset, "
-           "the primitive TermList contracts as hypotheses (they are the hypothesis of C05 by its wording; their polyhedral proofs are C04/C07/C03), "
-           "list order abstracted, message formatting not interpreted")
+def _mixed(expl, monitor, domains="UHS", chain_props=(), extra_trusted=()):
+    return {
+        "level": "other",
+        "level_text": _MIXED_TEXT,
+        "level_note": _MIXED_NOTE,
+        "domains": domains,
+        "technique": _VC + "; bounded stand-in: run-time contract monitor with exact (z3 / rational) oracles",
+        "monitor": monitor,
+        "explanation": expl,
+        "chain_props": list(chain_props),
+        "trusted": list(extra_trusted),
+    }
+
 
 PLAN = {
     "C05": {
@@ -41,7 +86,7 @@ PLAN = {
         "level_text": _PROOF_TEXT,
         "level_note": _U_NOTE,
         "domains": "U",
-        "technique": "contract-based deductive verification: VCs generated from the real ast (pyvc, domain U, unbounded), discharged by z3",
+        "technique": _VC + " (domain U, unbounded)",
         "monitor": None,
         "explanation": _U_EXPL + "The primitive contracts are the hypothesis of the property itself.",
     },
@@ -50,18 +95,91 @@ PLAN = {
         "level_text": _PROOF_TEXT,
         "level_note": _U_NOTE,
         "domains": "U",
-        "technique": "contract-based deductive verification: VCs generated from the real ast (pyvc, domain U, unbounded), discharged by z3",
+        "technique": _VC + " (domain U, unbounded)",
         "monitor": None,
-        "explanation": _U_EXPL + "List order is abstracted (the property speaks about sets and duplicate-freeness). The polyhedral wrappers "
-        "(string -> Var conversion of vars_to_keep) are interpreted as well.",
+        "explanation": _U_EXPL + "List order is abstracted (the property speaks about sets and duplicate-freeness).",
     },
     "C08": {
         "level": "proof",
         "level_text": _PROOF_TEXT,
-        "level_note": _U_NOTE,
+        "level_note": _U_NOTE + "; additionally a bounded monitor exercises the polyhedral instance (not part of the proof claim)",
         "domains": "U",
-        "technique": "contract-based deductive verification: VCs generated from the real ast (pyvc, domain U, unbounded), discharged by z3",
-        "monitor": None,
+        "technique": _VC + " (domain U, unbounded); plus bounded monitor of the polyhedral instance",
+        "monitor": "m_algebra",
         "explanation": _U_EXPL + "merge is proved exact for any constraint domain whose simplify meets P-simplify; the polyhedral simplify contract is C07.",
     },
+    "C01": _mixed(
+        "Theorem chain. (1) algebra layer: the C05 compose obligations (domain U, unbounded) prove that compose is a sound abstraction for ANY TermList meeting the primitive contracts. "
+        "(2) the primitive contracts for polyhedra: elimination (C04 obligations: dispatcher, _transform, elim_vars_by_*, tactics 2 and 4 proved in domain S; tactics 1/3/5 assumed), simplification (C07 obligations, domains H and S). "
+        "(3) bounded monitor on real compose with real scipy/sympy over random wirings, kept variables, simplify flags and tactic orders with an exact z3 oracle in the property's tolerance reading.",
+        "m_algebra",
+        chain_props=["C04", "C07"],
+    ),
+    "C02": _mixed(
+        "Theorem chain as for C01 with the C05 quotient obligations (domain U, unbounded; case split on the answer of refines and on success/ValueError of both try blocks), the C04/C07/C03 primitive obligations, "
+        "and a bounded monitor on real quotient calls (dividends built by composing the divisor with a hidden partner).",
+        "m_algebra",
+        chain_props=["C04", "C07", "C03"],
+    ),
+    "C03": _mixed(
+        "Contract level (domain U, unbounded): refines / <= / contains_environment / contains_implementation are exactly the two (one) list-level containment tests the property prescribes, interface mismatch raises. "
+        "LP level (domain H: up to 3x3 rows, ANY dimension): verify_polytope_containment and is_polytope_empty answer True iff containment / emptiness under the ideal LP contract, in the property's tolerance reading "
+        "(True only if no point violates beyond 1e-4(1+|c|), False only if not exactly contained); list level (domain S): the matrices handed over mean the lists. Real-solver round-off: bounded monitor (must-True on exact data, must-False beyond tolerance).",
+        "m_algebra",
+    ),
+    "C04": _mixed(
+        "Per-tactic contracts in domain S (all supports over the stated variable names, arbitrary real coefficients): tactic 2 (with the ideal LP contract), tactic 4 (by induction: the recursive call is replaced by the contract being proved), "
+        "PolyhedralTerm primitives (isolate, substitute, multiply, add, remove), the dispatcher for 12 tactic orders and every outcome of every tactic, _transform and elim_vars_by_refining/relaxing for every outcome of the dispatcher and of simplify. "
+        "Tactics 1, 3 and 5 (sympy-based context reduction) are not under contract (assumed at the dispatcher) and are covered only by the bounded monitor, where tactic 5 is a known finding.",
+        "m_algebra",
+    ),
+    "C07": _mixed(
+        "reduce_polytope (domain H: <=3 rows, <=2 context rows, ANY dimension): selection in order with unchanged constants, equivalence in context, every kept row non-redundant within the property's margin, ValueError only if infeasible; "
+        "simplify (domain S) through the call-site contract of reduce_polytope: selection of the original terms, equivalence in context, irredundancy; IoContract.__init__/simplify (domain U): behaviours under assumptions unchanged. Real solver: bounded monitor with planted redundancies.",
+        "m_algebra",
+    ),
+    "C09": _mixed(
+        "Bounded monitor only at this stage for the grammar wiring (pyparsing is outside the verifier's reach, assumption A8); the parse actions and the syntax-term algebra are under contract where registered (see per_contract).",
+        "m_io",
+    ),
+    "C10": _mixed(
+        "Bounded monitor for the string/file forms (number formatting, string building, json are outside the verifier's reach); dictionary-form obligations where registered (see per_contract).",
+        "m_io",
+    ),
+    "C11": _mixed(
+        "Domain S obligations on substitute_variable, evaluate, contains_behavior (boundary included, unassigned variable => ValueError), is_empty through the call-site contract of is_polytope_empty, "
+        "and domain H obligations on is_polytope_empty (any dimension). Float evaluation and the real solver on thin systems: bounded monitor with dyadic points on/inside/outside every boundary.",
+        "m_misc",
+    ),
+    "C12": _mixed(
+        "Domain S obligations on PolyhedralTermList.optimize: the LP solved has the list as feasible set and +-objective as objective; value is attained and optimal, None only if non-empty and unbounded, ValueError only if infeasible - under the ideal LP contract. "
+        "Objective parsing and the real solver's status codes: bounded monitor against z3 Optimize.",
+        "m_misc",
+    ),
+    "C13": _mixed(
+        "Frame and freshness obligations generated for every function under contract (every heap write to an object that existed before the call is an obligation; results must not alias operands; tactics_order is only passed through; module constants unchanged), "
+        "in all three domains. Histories: bounded monitor with operation sequences over a shared pool, deep snapshots, post-hoc mutation of results, repetition and replay of every step in a fresh interpreter.",
+        "m_io",
+    ),
+    "C14": _mixed(
+        "Exceptional postconditions of every function under contract: every raise / assert / subscript / division / None-arithmetic reachable on a path yields an outcome whose class must be documented (ValueError from the algebra layer only as propagated from a primitive). "
+        "Dictionary faults: EXHAUSTIVE enumeration (finite) of single-field deletions and type changes in both representations through from_dict, validate+from_strings and the file reader; adversarial shapes by the monitor.",
+        "m_io",
+    ),
+    "C15": _mixed(
+        "merge: proved at the algebra layer (no operand guarantee is forgotten). compose: bounded monitor only (the obligation needs the polyhedral keep-property of relaxation; it is refuted on this tree: a guarantee present in both operands is dropped because each side is simplified against the other - known finding).",
+        "m_algebra",
+    ),
+    "C16": _mixed(
+        "Contract level (domain U, unbounded): the four interface cases, rejection iff input/output clash, absent or equal source changes nothing, meaning = renamed behaviour (given the Term.rename contract); term level (domain S): PolyhedralTerm.rename_variable is faithful substitution with coefficients added; "
+        "TermList.rename_variable is the map. Sequences of mappings and round trips: bounded monitor against a reference substitution.",
+        "m_misc",
+    ),
+    "C17": _mixed("Bounded monitor at this stage (compound contracts over polyhedral alternatives); the nested-list functions are under contract where registered (see per_contract).", "m_misc"),
+    "C18": _mixed("Bounded monitor against exact rational vertex enumeration (Qhull / atan2 are outside the verifier's reach); reduction obligations where registered (see per_contract).", "m_io"),
+    "C19": _mixed(
+        "Domain S obligations on PolyhedralTerm.__eq__ (iff same coefficients and constant, symmetric), __hash__ (congruent with ==), copy (equal, fresh), __init__ (zero coefficients dropped); TermList.copy and IoContract.copy in domain U. "
+        "Contract-level ==/hash and float corner cases (-0.0): bounded monitor with single-field edits.",
+        "m_misc",
+    ),
 }
